@@ -228,6 +228,9 @@ Definition pkg_cmd (st : state) (name : string) (args : list sx) : option (state
   | "reopen", [SY _] => Some (with_pkg st (fun k => reopen st k))
   | "raw", [] => Some (with_pkg st (fun k => (st, raw_sx k)))
   | "rows", [] => Some (with_pkg st (fun k => (st, all_rows_sx prof k)))
+  | "snapshot", [] =>
+      Some (with_pkg st (fun k => (st, SL [ptype_sx (k_type k); sx_N (cp_id (p_cp (k_pool k))); tables_sx k;
+                                            all_rows_sx prof k; streams_sx k; summary_sx (k_sum k)])))
   | "stream_data", [] => Some (with_pkg st (fun k => (st, streams_sx k)))
   | _, _ => None
   end.
